@@ -200,6 +200,54 @@ class CategoricalAssert(AssertContract):
     return cl
 
 
+@H.register
+class KflAssert(AssertContract):
+  """kronecker_factored_lattice_lib.assert_constraints: sign-directed ordering along monotone
+  dimensions (slack eps), product of per-dimension maxima <= 1 when both bounds are set (slack eps),
+  non-negative weights when one bound is set (exact), scale range / sign (exact)."""
+  module = 'kronecker_factored_lattice_lib'
+  qualname = 'assert_constraints'
+
+  def clauses(self, weights, units, scale, monotonicities, output_min, output_max, slack):
+    from props.C07 import W, dims_of
+    L, U, D, T = dims_of(weights, units)
+    w = W(weights, L, U, D, T)
+    sc = tfc._t(scale).a
+    cl = []
+    for u in range(U):
+      for t in range(T):
+        s = P.lift(sc[u, t])
+        for d, m in enumerate(monotonicities or []):
+          if not m:
+            continue
+          for i in range(L - 1):
+            a, b = w(i, u, d, t), w(i + 1, u, d, t)
+            cl.append(('ordered[i%d,u%d,d%d,t%d]' % (i, u, d, t),
+                       ((s > 0).implies(b - a >= -slack)) & ((s < 0).implies(a - b >= -slack))))
+        if output_min is not None and output_max is not None:
+          prod = P.const(1)
+          for d in range(D):
+            prod = prod * E.pmax(*[E.pabs(w(i, u, d, t)) for i in range(L)])
+          cl.append(('product-of-maxima<=1[u%d,t%d]' % (u, t), prod <= 1 + slack))
+          bound = (P.lift(output_max) - P.lift(output_min)) / 2
+          cl.append(('|scale|<=half-range[u%d,t%d]' % (u, t), (s <= bound) & (s >= -bound)))
+        elif output_min is not None or output_max is not None:
+          for d in range(D):
+            for i in range(L):
+              cl.append(('weight>=0[i%d,u%d,d%d,t%d]' % (i, u, d, t), w(i, u, d, t) >= 0))
+          cl.append(('scale-sign[u%d,t%d]' % (u, t), (s >= 0) if output_min is not None else (s <= 0)))
+    return cl
+
+  def post(self, out, weights, units, scale, monotonicities, output_min, output_max, eps=1e-6):
+    ok = P.lift(out.a[()]).eq(1)
+    e = P.lift(eps)
+    cl = [('accepts-only-feasible:' + n, ok.implies(b))
+          for n, b in self.clauses(weights, units, scale, monotonicities, output_min, output_max, e)]
+    exact = self.clauses(weights, units, scale, monotonicities, output_min, output_max, P.const(0))
+    cl.append(('accepts-all-feasible', H.conj(exact).implies(ok)))
+    return cl
+
+
 def _eps():
   rng = getattr(C.cur(), 'concrete_rng', None) if C.active() else None
   if rng is not None:
@@ -258,8 +306,17 @@ class CategoricalCase(Case):
             [list(p) for p in cfg['pairs']] or None), dict(eps=_eps())
 
 
+class KflCase(Case):
+  contract_key = 'kronecker_factored_lattice_lib.assert_constraints'
+
+  def build(self, cfg):
+    L, U, D, T = cfg['L'], cfg['units'], cfg['dims'], cfg['terms']
+    return (tfc.sym([1, L, U * D, T], 'w'), U, tfc.sym([U, T], 'scale'), list(cfg['monos']),
+            _bound(cfg, 'min'), _bound(cfg, 'max')), dict(eps=_eps())
+
+
 CASES = {'lattice': LatticeCase(), 'pwl': PwlCase(), 'linear': LinearCase(),
-         'categorical': CategoricalCase()}
+         'categorical': CategoricalCase(), 'kfl': KflCase()}
 
 
 def configs(tier, rng):
@@ -299,6 +356,15 @@ def configs(tier, rng):
       jobs.append(('linear', cfg))
     elif cn == 'cp':
       jobs.append(('categorical', cfg))
+  # Kronecker-factored lattice
+  for L, D in (((2, 1), (2, 2), (3, 2)) if tier == 'quick' else ((2, 1), (2, 2), (3, 2), (2, 3), (3, 3))):
+    for units in (1, 2):
+      for terms in (1, 2):
+        for monos in itertools.product([0, 1], repeat=D):
+          for bounds in bk:
+            if tier == 'quick' and units == 2 and terms == 2 and (L, D) != (2, 2):
+              continue
+            jobs.append(('kfl', dict(L=L, dims=D, units=units, terms=terms, monos=list(monos), bounds=bounds)))
   out, seen = [], set()
   for j in jobs:
     key = json.dumps(j, sort_keys=True)
